@@ -1219,6 +1219,62 @@ class Gen:
         self.script = steps
         self.w.stats.probes["fault_script_started"] += 1
 
+    def start_shared_script(self, actor: str) -> None:
+        """One node object at several positions of a tree is written, every original is lost, the document is read
+        back (here and in a fresh process): it must again be ONE object at all its positions."""
+        w = self.w
+        r = self.r("shscript")
+        o = r.choice(self.cfg["origins"])
+        s, t, p = self.out() + "s", self.out() + "t", self.out() + "p"
+        fmt = r.choice(self.cfg["formats"])
+        save = self.cfg["p_ref"]
+        self.cfg["p_ref"] = 0.0
+        shared = self.spec(r.choice([0, 0, 1]))
+        other = self.spec(0)
+        self.cfg["p_ref"] = save
+        ref = {"ref": {"h": s, "path": []}}
+        shape = r.choice(["pair", "seq", "deep"])
+        if shape == "pair":
+            tree = {"c": "Pair", "p": {}, "ch": {"left": ref, "lhs": other, "right": ref}, "o": o}
+        elif shape == "seq":
+            tree = {"c": "Seq", "p": {}, "ch": {"items": [ref, other, ref]}, "o": o}
+        else:
+            tree = {"c": "Pair", "p": {}, "ch": {"left": {"c": "Seq", "p": {}, "ch": {"items": [ref]}, "o": o}, "right": ref}, "o": o}
+        opts = r.choice([None, None, "idx"])
+        self.script = [
+            lambda a: {"op": "construct", "spec": shared, "out": s},
+            lambda a: {"op": "construct", "spec": tree, "out": t} if s in w.handles else None,
+            lambda a: {"op": "ser", "n": {"h": t, "path": []}, "fmt": fmt, "opts": opts, "out": p} if t in w.handles else None,
+            lambda a: {"op": "drop", "h": t} if t in w.handles else None,
+            lambda a: {"op": "drop", "h": s} if s in w.handles and r.random() < 0.8 else None,
+            lambda a: {"op": "deser", "p": p, "entry": r.choice(["ASTNode", "cls"]), "out": self.out()} if p in w.handles else None,
+            lambda a: {"op": "peer_roundtrip", "p": p} if p in w.handles and w.peer is not None else None,
+        ]
+        w.stats.probes["shared_script_started"] += 1
+
+    def start_deser_fault_script(self, actor: str) -> None:
+        """A document is read back after its root is gone while parts of it live on elsewhere, and the read fails at
+        a nested object AFTER those live parts were met: they must stay exactly as registered as they were."""
+        w = self.w
+        r = self.r("dfscript")
+        o = r.choice(self.cfg["origins"])
+        s, t, p = self.out() + "s", self.out() + "t", self.out() + "p"
+        fmt = r.choice(self.cfg["formats"])
+        shared = {"c": r.choice(["LeafA", "LeafB"]), "p": {"a": r.choice(self.cfg["pools"]["str"])}, "ch": {}, "o": o}
+        if r.random() < 0.4:
+            shared = {"c": "Seq", "p": {}, "ch": {"items": [shared]}, "o": o}
+        items = [{"ref": {"h": s, "path": []}}, {"c": "Carrier", "p": {"tok": "t"}, "ch": {}, "o": o}, {"c": "LeafB", "p": {"a": "z"}, "ch": {}, "o": o}]
+        if r.random() < 0.3:
+            items[0], items[1] = items[1], items[0]
+        self.script = [
+            lambda a: {"op": "construct", "spec": shared, "out": s},
+            lambda a: {"op": "construct", "spec": {"c": "Seq", "p": {}, "ch": {"items": items}, "o": o}, "out": t} if s in w.handles else None,
+            lambda a: {"op": "ser", "n": {"h": t, "path": []}, "fmt": fmt, "opts": None, "out": p} if t in w.handles else None,
+            lambda a: {"op": "drop", "h": t} if t in w.handles else None,
+            lambda a: {"op": "deser", "p": p, "entry": r.choice(["ASTNode", "cls"]), "out": self.out(), "fault": {"site": "tok_deser", "k": 1}} if p in w.handles else None,
+        ]
+        w.stats.probes["deser_fault_script_started"] += 1
+
     def start_wide_script(self, actor: str) -> None:
         """Wide nodes come and go: a node with many children is dropped and collected, then another one of the same
         width is built (its child tuple may land where the dead one's was), next to a live reference copy."""
@@ -1255,6 +1311,12 @@ class Gen:
             return
         if self.cfg["prop"] in ("C01", "C03", "C14") and r.random() < 0.35:
             self.start_wide_script(actor)
+            return
+        if self.cfg["prop"] == "C04" and r.random() < 0.4:
+            self.start_shared_script(actor)
+            return
+        if self.cfg["prop"] in ("C10", "C03") and self.cfg["faults"] and r.random() < (0.7 if self.cfg["prop"] == "C10" else 0.25):
+            self.start_deser_fault_script(actor)
             return
         cands = [n for n, h in w.handles.items() if h.kind == "node" and _SUFFIX.match(h.obj.id) and w.inf(h.obj).reg and len(walk(h.obj)) <= 8 and cname(h.obj) in U.CLS]
         if not cands:
@@ -1524,6 +1586,8 @@ class Gen:
         op: dict[str, Any] = {"op": "ser", "n": ref, "fmt": r.choice(self.cfg["formats"]), "opts": r.choice([None, None, "idx"]), "out": self.out()}
         if self.cfg["faults"] and self.cfg["ser_faults"] and r.random() < 0.3 and any(cname(x) == "Carrier" for x in walk(self.w.node_at(ref))):
             op["fault"] = {"site": "tok_ser", "k": r.choice([1, 1, 2])}
+        if self.cfg.get("threads") and r.random() < 0.5:
+            op["thread"] = True
         return op
 
     def g_deser(self, actor: str) -> dict[str, Any] | None:
@@ -1534,6 +1598,8 @@ class Gen:
         op: dict[str, Any] = {"op": "deser", "p": r.choice(names), "entry": r.choice(["ASTNode", "cls"]), "out": self.out()}
         if self.cfg["faults"] and self.cfg["ser_faults"] and r.random() < 0.25:
             op["fault"] = {"site": "tok_deser", "k": r.choice([1, 1, 2])}
+        if self.cfg.get("threads") and r.random() < 0.5:
+            op["thread"] = True
         return op
 
     def g_crash(self, actor: str) -> dict[str, Any] | None:
@@ -1842,8 +1908,9 @@ def make_config(rseed: int, prop: str, tier: str, faults: bool) -> dict[str, Any
         "formats": r.sample(list(FORMATS), r.choice([1, 2, 4])),
         "dyn_redefine": "Dyn" in leafs and r.random() < 0.6,
         "reuse_visitors": r.random() < 0.5,
+        "threads": prop in ("C04", "C10", "C03") and r.random() < 0.3,
         "dyn_keep_old": prop == "C03" and r.random() < 0.5,
-        "scripts": prop in ("C14", "C04", "C03", "C01") and r.random() < 0.6,
+        "scripts": prop in ("C14", "C04", "C03", "C01", "C10") and r.random() < 0.6,
         "trace_logging": r.random() < 0.1,
         "exotic_origins": exotic,
         "ser_faults": prop in ("C03", "C10", "C04"),
@@ -1933,6 +2000,27 @@ def snap_tree(o: Any, shared: dict[int, int], counter: list[int], with_ref: bool
 
 def snap_strip(s: dict[str, Any]) -> dict[str, Any]:
     return {k: ([[f, i, snap_strip(c)] for f, i, c in v] if k == "children" else v) for k, v in s.items() if k != "ref"}
+
+
+def in_fresh_thread(fn: Any) -> Any:
+    """Run fn() in a newly started thread that is joined at once (calls by different caller threads, one after the
+    other: still a deterministic sequence)."""
+    import threading
+
+    box: dict[str, Any] = {}
+
+    def run() -> None:
+        try:
+            box["ret"] = fn()
+        except BaseException as e:  # noqa: BLE001
+            box["exc"] = e
+
+    t = threading.Thread(target=run, name="caller")
+    t.start()
+    t.join()
+    if "exc" in box:
+        raise box["exc"]
+    return box["ret"]
 
 
 UNSERIALIZABLE = ("EnumBag", "AnyBox")  # universe classes with Any-typed values that the serializers need not support
@@ -2139,7 +2227,11 @@ def op_ser(self: World, op: dict[str, Any]) -> str:
     o = self.node_at(op["n"])
     fmt = op["fmt"]
     try:
-        data = serialize(o, fmt, ser_opts(op.get("opts")))
+        if op.get("thread"):
+            data = in_fresh_thread(lambda: serialize(o, fmt, ser_opts(op.get("opts"))))
+            self.stats.probes["call_from_fresh_thread"] += 1
+        else:
+            data = serialize(o, fmt, ser_opts(op.get("opts")))
     except InjectedFault as e:
         self.stats.probes["fault_fired:" + e.site] += 1
         return "raised:InjectedFault"
@@ -2198,7 +2290,11 @@ def op_deser(self: World, op: dict[str, Any]) -> str:
             del orig, pre
     pre = self._pre_ids()
     try:
-        res = deserialize(entry, h.obj, fmt, ser_opts(opts))
+        if op.get("thread"):
+            res = in_fresh_thread(lambda: deserialize(entry, h.obj, fmt, ser_opts(opts)))
+            self.stats.probes["call_from_fresh_thread"] += 1
+        else:
+            res = deserialize(entry, h.obj, fmt, ser_opts(opts))
     except InjectedFault as e:
         self.stats.probes["fault_fired:" + e.site] += 1
         return "raised:InjectedFault"
